@@ -8,7 +8,7 @@ from harness import gen as G
 from harness import htaio
 from harness.props import common as C
 
-N_CASES = {"quick": 150, "thorough": 2400}
+N_CASES = {"quick": 300, "thorough": 2400}
 SHRINK = True
 ASSUMPTIONS = [
     "events of one host thread are properly nested (any two positive-duration events are disjoint or one contains the other); durations are non-negative; event ids are unique",
